@@ -53,6 +53,9 @@ func oracleLoop(c *Case, idx int, out *childOut) {
 			bad("no-retry-after-failure", fmt.Sprintf("attempt %d (%s) ended at %s; the context stayed live until %s and no further attempt was made", i, what(i), fmtDur(t.End[i]), fmtDur(t.CancelAt)))
 		}
 	}
+	if n == 0 && live(c.Max+1000*ms) {
+		bad("no-attempt-at-all", fmt.Sprintf("the client was started and its context stayed live until %s, yet it never contacted the access or the websocket server", fmtDur(t.CancelAt)))
+	}
 	if t.ReturnedAt >= 0 && live(t.ReturnedAt+20*ms) {
 		bad("returned-while-live", fmt.Sprintf("the reconnect loop returned at %s although its context was live until %s", fmtDur(t.ReturnedAt), fmtDur(t.CancelAt)))
 	}
@@ -118,7 +121,7 @@ func oracleLoop(c *Case, idx int, out *childOut) {
 	if c.Stay > 0 {
 		ups, first := 0, -1
 		for i := 0; i < n; i++ {
-			if c.Obs[i].Est {
+			if c.Obs[i].Est && (i >= len(c.Sched) || c.Sched[i].W == "acceptstay") {
 				ups++
 				if first < 0 {
 					first = i
